@@ -66,6 +66,11 @@ def cases(tier, rng, schema, feats):
             acd = "bb" * aag + ":" + rng.bytes(max(0, idl)).hex() + ":" + "a5" * max(0, keylen)
             add("mc", rp, 0x41, 7, acd, "-")
             add("mc", rp, 0xC1, 7, acd, gen.show(g.named_val("ctap2::make_credential::Extensions", present="all")))
+    # parts of 2^16 bytes and more (a length handled in 16 bits would wrap): every part, alone and together
+    for aag, idl, keylen in ((16, 64, 65536), (16, 64, 65536 + 77), (16, 0, 131072), (65536 + 16, 0, 0), (65536, 64, 77), (16, 65535, 65536 + 1), (0, 0, 65536 * 3 + 5)):
+        acd = "bb" * aag + ":" + "cc" * idl + ":" + "a5" * keylen
+        add("mc", rp, 0x41, 7, acd, "-")
+        add("mc", rp, 0xC1, 7, acd, gen.show(g.named_val("ctap2::make_credential::Extensions", present="all")))
     # get_assertion flavour with Some(NoAttestedCredentialData): contributes no bytes
     for flags in (0x01, 0x41, 0x81, 0xC5):
         add("ga", rp, flags, 9, "::", "-")
